@@ -132,7 +132,7 @@ class G:
         self.pats = []
         if ty in ('int', 'long'):
             c, t = self.int_m(3, True)
-        elif ty == 'str':
+        elif ty in ('str', 'sv'):
             c, t = self.comb(self.str_leaf, 3) if self.r.random() < 0.85 else self.str_leaf(True)
         elif ty == 'cstr':
             c, t = self.comb(self.cstr_leaf, 2)
@@ -146,7 +146,7 @@ class G:
 def value_tokens(ty):
     if ty in ('int', 'long'):
         return ['i:%d' % v for v in INT_DOM], INT_DOM
-    if ty == 'str':
+    if ty in ('str', 'sv'):
         return ['s:' + v for v in STR_DOM], STR_DOM
     if ty == 'cstr':
         return ['cnull' if v is None else 'c:' + v for v in CSTR_DOM], CSTR_DOM
@@ -190,11 +190,14 @@ CORPUS = [
     ('ptr_unique', 'trompeloeil::none_of(nullptr, *trompeloeil::lt(0))', ['noneof', '2', 'val', 'pnull', 'deref', 'lt', 'i:0'], []),
     ('ptr_shared', 'trompeloeil::all_of(nullptr)', ['allof', '1', 'val', 'pnull'], []),
     ('cstr', 'trompeloeil::any_of(nullptr, trompeloeil::re("^a"))', ['anyof', '2', 'val', 'cnull', 're', '0'], [('^a', False)]),
+    ('sv', 'trompeloeil::re("b$")', ['re', '0'], [('b$', False)]),
+    ('sv', 'trompeloeil::re("^a$")', ['re', '0'], [('^a$', False)]),
+    ('sv', '!trompeloeil::re("ba")', ['not', 're', '0'], [('ba', False)]),
     ('ptr_raw', 'nullptr', ['val', 'pnull'], []),
     ('cstr', 'nullptr', ['val', 'cnull'], []),
 ]
 
-TYPES = ['int', 'int', 'int', 'long', 'str', 'str', 'cstr', 'ptr_raw', 'ptr_unique', 'ptr_shared', 'S']
+TYPES = ['int', 'int', 'int', 'long', 'str', 'str', 'sv', 'cstr', 'ptr_raw', 'ptr_unique', 'ptr_shared', 'S']
 
 
 def reuse_ok(cpp):
@@ -225,7 +228,7 @@ def generate(rng, ntrees, ntu=8, drop=frozenset()):
         src = ['// generated by tools/matchergen.py — do not edit', '#include "hm.hpp"', 'namespace hm {',
                'void trees_%d() {' % t]
         for bi, (ty, tr) in enumerate(per_tu[t]):
-            run = {'int': 'run_int', 'long': 'run_long', 'str': 'run_str', 'cstr': 'run_cstr', 'ptr_raw': 'run_ptr_raw',
+            run = {'int': 'run_int', 'long': 'run_long', 'str': 'run_str', 'sv': 'run_sv', 'cstr': 'run_cstr', 'ptr_raw': 'run_ptr_raw',
                    'ptr_unique': 'run_ptr_unique', 'ptr_shared': 'run_ptr_shared', 'S': 'run_S'}[ty]
             vtoks, vals = value_tokens(ty)
             bid = 't%d.%d' % (t, bi)
@@ -235,7 +238,7 @@ def generate(rng, ntrees, ntu=8, drop=frozenset()):
                            % (tr.cpp, run))
                 blocks[(t, l0, len(src))] = (bid, src[-1].strip())
                 for vt, v in zip(vtoks, vals):
-                    orc = oracle(tr.pats, v if ty in ('str', 'cstr') else None)
+                    orc = oracle(tr.pats, v if ty in ('str', 'sv', 'cstr') else None)
                     lines.append('%s | %s | %s' % (' '.join(tr.toks), vt, ' '.join(orc) if orc else '-'))
                     LINE2CPP.setdefault(lines[-1], '%s  evaluated on %s by %s' % (tr.cpp, vt, run))
             # a matcher held in a named variable, composed (copied, not consumed) and then used again: composing must
@@ -252,7 +255,7 @@ def generate(rng, ntrees, ntu=8, drop=frozenset()):
                 blocks[(t, l0, len(src))] = (bid + 'r', ' '.join(x.strip() for x in src[l0 - 1:]))
                 for toks in (['not'] + tr.toks, ['anyof', '2'] + tr.toks + tr.toks, ['noneof', '1'] + tr.toks, tr.toks):
                     for vt, v in zip(vtoks, vals):
-                        orc = oracle(tr.pats, v if ty in ('str', 'cstr') else None)
+                        orc = oracle(tr.pats, v if ty in ('str', 'sv', 'cstr') else None)
                         lines.append('%s | %s | %s' % (' '.join(toks), vt, ' '.join(orc) if orc else '-'))
         src += ['}', '}']
         files['gen_trees_%d.cpp' % t] = '\n'.join(src) + '\n'
